@@ -18,7 +18,7 @@ from . import exprcheck
 M64 = (1 << 64) - 1
 STR_OPS = ("sconst", "svar", "sconcat", "substr", "sreplace", "from_int")
 INT_OPS = ("const", "slen", "indexof", "to_int")
-BOOL_OPS = ("contains", "prefixof", "suffixof", "seq", "sne")
+BOOL_OPS = ("contains", "prefixof", "suffixof", "seq", "sne")  # plus ("eq", int, int), only written by C26
 
 
 def T(x):
@@ -154,7 +154,7 @@ def z3term(t):
         return z3.PrefixOf(z3term(t[1]), z3term(t[2]))
     if op == "suffixof":
         return z3.SuffixOf(z3term(t[1]), z3term(t[2]))
-    if op == "seq":
+    if op in ("seq", "eq"):
         return z3term(t[1]) == z3term(t[2])
     if op == "sne":
         return z3term(t[1]) != z3term(t[2])
@@ -236,7 +236,7 @@ def build(t, ch=None):
         return claripy.StrPrefixOf(build(t[1], ch), build(t[2], ch))
     if op == "suffixof":
         return claripy.StrSuffixOf(build(t[1], ch), build(t[2], ch))
-    if op == "seq":
+    if op in ("seq", "eq"):
         return build(t[1], ch) == build(t[2], ch)
     if op == "sne":
         return build(t[1], ch) != build(t[2], ch)
